@@ -232,6 +232,18 @@ def walkR (c : α → α → Bool) (n : Nat) (s : Nat → α) : Nat → Nat → 
 def gtB (a b : α) : Bool := decide (b < a)
 def ltB (a b : α) : Bool := decide (a < b)
 def leB (a b : α) : Bool := decide (a ≤ b)
+/-- `a == b` of the code, through the order (IEEE: false when a NaN is involved, true for `-0 == +0`; on ℝ it is equality) -/
+def eqB (a b : α) : Bool := decide (a ≤ b ∧ b ≤ a)
+
+/-- `while ((p > 0) && (spec[p-1] == v)) --p;` — left end of the plateau of bins equal to the peak value `v` -/
+def topL (s : Nat → α) (v : α) : Nat → Nat
+  | 0 => 0
+  | p + 1 => if eqB (s p) v then topL s v p else p + 1
+
+/-- `while ((p < n-1) && (spec[p+1] == v)) ++p;` — right end of that plateau (fuel `n` suffices) -/
+def topR (n : Nat) (s : Nat → α) (v : α) : Nat → Nat → Nat
+  | 0, p => p
+  | f + 1, p => if p + 1 < n ∧ eqB (s (p + 1)) v then topR n s v f (p + 1) else p
 
 /-- `_locate_peak(spec, idx)` -/
 def locatePeak (n : Nat) (s : Nat → α) (idx : Nat) : Nat :=
@@ -260,11 +272,14 @@ def lobeDot (n : Nat) (s : Nat → α) (lpos rpos : Nat) : α :=
 def lobeSum (s : Nat → α) (lpos rpos : Nat) : α :=
   sum ((List.range' lpos (rpos + 1 - lpos)).map s)
 
-/-- `_get_psd_tone(spec, tone_freq)` after `freq_num` has been computed and clamped -/
+/-- `_get_psd_tone(spec, tone_freq)` after `freq_num` has been computed and clamped.  A tone midway between two bins
+has two equal top bins: the descents start at both ends `ltop`, `rtop` of the plateau of bins equal to the peak. -/
 def getTone (n : Nat) (s : Nat → α) (fnum : Nat) : Tone α :=
   let ipeak := locatePeak n s fnum
-  let lpos := leftDescent s ipeak
-  let rpos := rightDescent n s ipeak
+  let ltop := topL s (s ipeak) ipeak
+  let rtop := topR n s (s ipeak) n ipeak
+  let lpos := leftDescent s ltop
+  let rpos := rightDescent n s rtop
   let pw := lobeSum s lpos rpos
   ⟨lpos, rpos, lobeDot n s lpos rpos / pw, pw⟩
 
